@@ -642,6 +642,121 @@ Theorem C05_N_cdf_monotone :
        x < y -> eval sts (NormalDistribution_cdf s m sg) x <= eval sts (NormalDistribution_cdf s m sg) y.
 Proof. exact (@N_virocon_cdf_monotone). Qed.
 
+(* log-normal (sigma > 0), any subset of explicit parameters: icdf(cdf(x)) = x for x > 0, from the GENERATED map (s = sigma, loc = 0, scale = exp(mu)) and scipy's documented lognorm cdf / ppf in terms of the standard normal Phi / PhiInv (hypotheses); the logarithm/exponential algebra is proved *)
+Theorem C05_LN_icdf_cdf :
+  forall (sts : call R -> R -> R) (Phi PhiInv : R -> R),
+       (forall x s loc scale : R,
+        loc < x ->
+        sts {| c_family := "lognorm"; c_method := "cdf"; c_params := [s; loc; scale] |} x =
+        Phi (ln ((x - loc) / scale) / s)) ->
+       (forall p s loc scale : R,
+        0 < p < 1 ->
+        sts {| c_family := "lognorm"; c_method := "ppf"; c_params := [s; loc; scale] |} p =
+        loc + scale * exp (s * PhiInv p)) ->
+       (forall z : R, PhiInv (Phi z) = z) ->
+       (forall z : R, 0 < Phi z < 1) ->
+       forall (s : LogNormalDistribution) (m sg : option R),
+       0 < ov sg (LogNormalDistribution_sigma s) ->
+       forall x : R,
+       0 < x ->
+       eval sts (LogNormalDistribution_icdf RN s m sg) (eval sts (LogNormalDistribution_cdf RN s m sg) x) =
+       x.
+Proof. exact (@LN_virocon_icdf_cdf). Qed.
+
+(* ... 0 < icdf(p) and cdf(icdf(p)) = p for 0 < p < 1 *)
+Theorem C05_LN_cdf_icdf :
+  forall (sts : call R -> R -> R) (Phi PhiInv : R -> R),
+       (forall x s loc scale : R,
+        loc < x ->
+        sts {| c_family := "lognorm"; c_method := "cdf"; c_params := [s; loc; scale] |} x =
+        Phi (ln ((x - loc) / scale) / s)) ->
+       (forall p s loc scale : R,
+        0 < p < 1 ->
+        sts {| c_family := "lognorm"; c_method := "ppf"; c_params := [s; loc; scale] |} p =
+        loc + scale * exp (s * PhiInv p)) ->
+       (forall p : R, 0 < p < 1 -> Phi (PhiInv p) = p) ->
+       forall (s : LogNormalDistribution) (m sg : option R),
+       0 < ov sg (LogNormalDistribution_sigma s) ->
+       forall p : R,
+       0 < p < 1 ->
+       0 < eval sts (LogNormalDistribution_icdf RN s m sg) p /\
+       eval sts (LogNormalDistribution_cdf RN s m sg) (eval sts (LogNormalDistribution_icdf RN s m sg) p) =
+       p.
+Proof. exact (@LN_virocon_cdf_icdf). Qed.
+
+(* generalized gamma (lambda > 0), any subset of explicit parameters: icdf(cdf(x)) = x for x > 0 (scale = 1/lambda, loc = 0 of the standard family F0(.; m, c)) *)
+Theorem C05_GG_icdf_cdf :
+  forall (sts : call R -> R -> R) (F0gg Q0gg : R -> R -> R -> R),
+       (forall x a c loc scale : R,
+        sts {| c_family := "gengamma"; c_method := "cdf"; c_params := [a; c; loc; scale] |} x =
+        LScdf (F0gg a c) loc scale x) ->
+       (forall p a c loc scale : R,
+        0 < p < 1 ->
+        sts {| c_family := "gengamma"; c_method := "ppf"; c_params := [a; c; loc; scale] |} p =
+        LSppf (Q0gg a c) loc scale p) ->
+       (forall a c z : R, 0 < z -> Q0gg a c (F0gg a c z) = z) ->
+       (forall a c z : R, 0 < z -> 0 < F0gg a c z < 1) ->
+       forall (s : GeneralizedGammaDistribution) (om oc ol : option R),
+       0 < ov ol (GeneralizedGammaDistribution_lambda_ s) ->
+       forall x : R,
+       0 < x ->
+       eval sts (GeneralizedGammaDistribution_icdf RN s om oc ol)
+         (eval sts (GeneralizedGammaDistribution_cdf RN s om oc ol) x) = x.
+Proof. exact (@GG_virocon_icdf_cdf). Qed.
+
+(* ... 0 < icdf(p) and cdf(icdf(p)) = p *)
+Theorem C05_GG_cdf_icdf :
+  forall (sts : call R -> R -> R) (F0gg Q0gg : R -> R -> R -> R),
+       (forall x a c loc scale : R,
+        sts {| c_family := "gengamma"; c_method := "cdf"; c_params := [a; c; loc; scale] |} x =
+        LScdf (F0gg a c) loc scale x) ->
+       (forall p a c loc scale : R,
+        0 < p < 1 ->
+        sts {| c_family := "gengamma"; c_method := "ppf"; c_params := [a; c; loc; scale] |} p =
+        LSppf (Q0gg a c) loc scale p) ->
+       (forall a c p : R, 0 < p < 1 -> 0 < Q0gg a c p /\ F0gg a c (Q0gg a c p) = p) ->
+       forall (s : GeneralizedGammaDistribution) (om oc ol : option R),
+       0 < ov ol (GeneralizedGammaDistribution_lambda_ s) ->
+       forall p : R,
+       0 < p < 1 ->
+       0 < eval sts (GeneralizedGammaDistribution_icdf RN s om oc ol) p /\
+       eval sts (GeneralizedGammaDistribution_cdf RN s om oc ol)
+         (eval sts (GeneralizedGammaDistribution_icdf RN s om oc ol) p) = p.
+Proof. exact (@GG_virocon_cdf_icdf). Qed.
+
+(* von Mises, any subset of explicit parameters: icdf(cdf(x)) = x within half a period of mu (also for mu outside [-pi, pi]) *)
+Theorem C05_VM_icdf_cdf :
+  forall (sts : call R -> R -> R) (Fvm Qvm : R -> R -> R),
+       (forall x kappa loc : R,
+        sts {| c_family := "vonmises"; c_method := "cdf"; c_params := [kappa; loc] |} x =
+        Fvm kappa (x - loc)) ->
+       (forall p kappa loc : R,
+        0 < p < 1 ->
+        sts {| c_family := "vonmises"; c_method := "ppf"; c_params := [kappa; loc] |} p = loc + Qvm kappa p) ->
+       (forall k z : R, - PI < z < PI -> Qvm k (Fvm k z) = z) ->
+       (forall k z : R, - PI < z < PI -> 0 < Fvm k z < 1) ->
+       forall (s : VonMisesDistribution) (ok om : option R) (x : R),
+       ov om (VonMisesDistribution_mu s) - PI < x < ov om (VonMisesDistribution_mu s) + PI ->
+       eval sts (VonMisesDistribution_icdf s ok om) (eval sts (VonMisesDistribution_cdf s ok om) x) = x.
+Proof. exact (@VM_virocon_icdf_cdf). Qed.
+
+(* ... icdf(p) lies within half a period of mu and cdf(icdf(p)) = p *)
+Theorem C05_VM_cdf_icdf :
+  forall (sts : call R -> R -> R) (Fvm Qvm : R -> R -> R),
+       (forall x kappa loc : R,
+        sts {| c_family := "vonmises"; c_method := "cdf"; c_params := [kappa; loc] |} x =
+        Fvm kappa (x - loc)) ->
+       (forall p kappa loc : R,
+        0 < p < 1 ->
+        sts {| c_family := "vonmises"; c_method := "ppf"; c_params := [kappa; loc] |} p = loc + Qvm kappa p) ->
+       (forall k p : R, 0 < p < 1 -> - PI < Qvm k p < PI /\ Fvm k (Qvm k p) = p) ->
+       forall (s : VonMisesDistribution) (ok om : option R) (p : R),
+       0 < p < 1 ->
+       ov om (VonMisesDistribution_mu s) - PI < eval sts (VonMisesDistribution_icdf s ok om) p <
+       ov om (VonMisesDistribution_mu s) + PI /\
+       eval sts (VonMisesDistribution_cdf s ok om) (eval sts (VonMisesDistribution_icdf s ok om) p) = p.
+Proof. exact (@VM_virocon_cdf_icdf). Qed.
+
 (* any loc-scale family F0((x-loc)/scale) with quantile function loc + scale*Q0(p), scale > 0: ppf(cdf(x)) = x *)
 Theorem C05_locscale_ppf_cdf :
   forall F0 Q0 : R -> R,
@@ -746,6 +861,12 @@ Print Assumptions C05_EW_pdf_is_derivative_of_cdf.
 Print Assumptions C05_N_icdf_cdf.
 Print Assumptions C05_N_cdf_icdf.
 Print Assumptions C05_N_cdf_monotone.
+Print Assumptions C05_LN_icdf_cdf.
+Print Assumptions C05_LN_cdf_icdf.
+Print Assumptions C05_GG_icdf_cdf.
+Print Assumptions C05_GG_cdf_icdf.
+Print Assumptions C05_VM_icdf_cdf.
+Print Assumptions C05_VM_cdf_icdf.
 Print Assumptions C05_locscale_ppf_cdf.
 Print Assumptions C05_locscale_cdf_ppf.
 Print Assumptions C05_SD_override_positional.
